@@ -4,6 +4,8 @@
 package quicworld
 
 import (
+	"sync/atomic"
+	"errors"
 	"context"
 	"crypto/x509"
 	"net"
@@ -63,6 +65,10 @@ type World struct {
 
 	ClientTLSConf *tls.Config
 	ServerTLSConf *tls.Config
+
+	// socket send errors: while set, every WriteTo of that side's socket fails (ENETUNREACH-like)
+	ClientSendFails atomic.Bool
+	ServerSendFails atomic.Bool
 }
 
 // New builds the world.  Call it inside a synctest bubble; call Close before the bubble ends.
@@ -108,7 +114,7 @@ func New(opt Options) (*World, error) {
 	}
 
 	if !opt.NoServer {
-		w.ServerTr = &quic.Transport{Conn: w.ServerPC, ConnectionIDLength: opt.ServerCIDLen, VerifySourceAddress: opt.VerifySourceAddress}
+		w.ServerTr = &quic.Transport{Conn: &faultySocket{PacketConn: w.ServerPC, fail: &w.ServerSendFails}, ConnectionIDLength: opt.ServerCIDLen, VerifySourceAddress: opt.VerifySourceAddress}
 		if opt.ServerTransport != nil {
 			opt.ServerTransport(w.ServerTr)
 		}
@@ -126,7 +132,7 @@ func New(opt Options) (*World, error) {
 			return nil, err
 		}
 	}
-	w.ClientTr = &quic.Transport{Conn: w.ClientPC, ConnectionIDLength: opt.ClientCIDLen}
+	w.ClientTr = &quic.Transport{Conn: &faultySocket{PacketConn: w.ClientPC, fail: &w.ClientSendFails}, ConnectionIDLength: opt.ClientCIDLen}
 	if opt.ClientKind != "plain" {
 		w.ClientUTr = &quic.UTransport{Transport: w.ClientTr}
 		if opt.ClientKind == "spec" {
@@ -199,4 +205,19 @@ func (w *World) Close() {
 	w.ClientPC.Close()
 	w.ServerPC.Close()
 	w.Router.Close()
+}
+
+// faultySocket passes everything through to the simulated socket, except that writes fail while *fail is set.
+type faultySocket struct {
+	net.PacketConn
+	fail *atomic.Bool
+}
+
+var errSocketSend = errors.New("verif: network is unreachable (injected socket send error)")
+
+func (f *faultySocket) WriteTo(b []byte, addr net.Addr) (int, error) {
+	if f.fail.Load() {
+		return 0, errSocketSend
+	}
+	return f.PacketConn.WriteTo(b, addr)
 }
